@@ -12,6 +12,7 @@ import (
 	"verif/harness/sx"
 
 	"github.com/lyraproj/pcore/px"
+	"github.com/lyraproj/pcore/types"
 )
 
 // The STRUCTURE of the mismatch description (model: lean/Pcore/Model/Describe.lean, driver: lean/Driver/DescC19.lean).
@@ -48,6 +49,11 @@ const descSubject = "x"
 type pelem struct{ tag, key string }
 
 type ditem struct {
+	full  bool   // from the structured result: expS / actS hold the full type terms of a tm / pm
+	expS  string
+	actS  string
+	expT  px.Type // live payload types of the structured result
+	actT  px.Type
 	kind  string
 	path  []pelem
 	heads []string // tm: expected alternatives; pm: [expected]
@@ -69,6 +75,9 @@ func pathString(p []pelem) string {
 
 func (d ditem) String() string {
 	p := pathString(d.path)
+	if d.full && (d.kind == "tm" || d.kind == "pm") {
+		return "(" + d.kind + " " + p + " " + d.expS + " " + d.actS + ")"
+	}
 	switch d.kind {
 	case "tm":
 		return "(tm " + p + " (" + strings.Join(d.heads, " ") + ") " + d.act + ")"
@@ -118,6 +127,101 @@ func renderItems(ds []ditem) string {
 		ss[i] = d.String()
 	}
 	return strings.Join(ss, " ")
+}
+
+// ---- the structured result (hook px.VerifDescribe, build tag verif) ---------------------------------------------------
+
+var classTag = map[string]string{"typeMismatch": "tm", "patternMismatch": "pm", "sizeMismatch": "sz", "countMismatch": "cnt",
+	"missingKey": "mk", "extraneousKey": "xk", "unresolvedTypeReference": "utr", "unexpectedBlock": "ub", "missingRequiredBlock": "mrb"}
+
+var pathTag = map[string]string{"": "s", "entry": "e", "key of entry": "k", "index": "i", "variant": "v", "parameter": "p",
+	"return": "r", "block": "b", "signature": "g"}
+
+// encAtomS: a type a mismatch carries, as a term; the two members of RichData the term language lacks are `typeset` / `deferred`.
+func encAtomS(t px.Type) (string, error) {
+	ty, err := lat.EncTy(t)
+	if err == nil {
+		return ty.String(), nil
+	}
+	if t != nil {
+		switch t.Name() {
+		case "TypeSet":
+			return "typeset", nil
+		case "Deferred":
+			return "deferred", nil
+		}
+	}
+	return "", err
+}
+
+// encExpS: an expected type; a Variant (given, or built by mergeMismatch) member by member.
+func encExpS(t px.Type) (string, error) {
+	if vt, ok := t.(*types.VariantType); ok {
+		var sb strings.Builder
+		sb.WriteString("(var")
+		for _, m := range vt.Types() {
+			s, err := encAtomS(m)
+			if err != nil {
+				return "", err
+			}
+			sb.WriteString(" " + s)
+		}
+		sb.WriteString(")")
+		return sb.String(), nil
+	}
+	return encAtomS(t)
+}
+
+func structuredItems(ms []px.VerifMismatch) ([]ditem, error) {
+	out := make([]ditem, 0, len(ms))
+	for _, m := range ms {
+		d := ditem{full: true, kind: classTag[m.Class], key: m.Key}
+		if d.kind == "" {
+			return nil, fmt.Errorf("unknown mismatch class %q", m.Class)
+		}
+		for _, pe := range m.Path {
+			tag, ok := pathTag[pe.Type]
+			if !ok {
+				return nil, fmt.Errorf("unknown path type %q", pe.Type)
+			}
+			d.path = append(d.path, pelem{tag, pe.Key})
+		}
+		switch d.kind {
+		case "tm", "pm":
+			var err error
+			if d.expS, err = encExpS(m.Expected); err != nil {
+				return nil, err
+			}
+			if d.actS, err = encAtomS(m.Actual); err != nil {
+				return nil, err
+			}
+			d.expT, d.actT = m.Expected, m.Actual
+		case "sz", "cnt":
+			ei, ok1 := m.Expected.(*types.IntegerType)
+			ai, ok2 := m.Actual.(*types.IntegerType)
+			if !ok1 || !ok2 {
+				return nil, fmt.Errorf("a size mismatch that does not carry two Integer types")
+			}
+			d.r = [4]int64{ei.Min(), ei.Max(), ai.Min(), ai.Max()}
+		}
+		out = append(out, d)
+	}
+	sortRuns(out)
+	return out, nil
+}
+
+// agree: the text and the structure tell the same story — same kinds, paths and keys in the same order, same size ranges.
+func agree(st, tx []ditem) string {
+	if len(st) != len(tx) {
+		return fmt.Sprintf("%d mismatches in the structured result, %d lines of text", len(st), len(tx))
+	}
+	for i := range st {
+		a, b := st[i], tx[i]
+		if a.kind != b.kind || !samePath(a.path, b.path) || a.key != b.key || ((a.kind == "sz" || a.kind == "cnt") && a.r != b.r) {
+			return "mismatch " + strconv.Itoa(i) + ": structure " + a.String() + ", text " + b.String()
+		}
+	}
+	return ""
 }
 
 // ---- reading the structure back from the text -----------------------------------------------------------------------
@@ -434,7 +538,22 @@ func execDescs(c px.Context, op string, args []sx.Sexp) core.Result {
 		if bad != "" {
 			return "unparsed", nil, "FAIL desc-unparsed the harness cannot read the structure of: " + firstLine(bad)
 		}
-		return renderItems(ds), ds, ""
+		// the structured result of the same call
+		var vms []px.VerifMismatch
+		if f := lat.Safely(func() { vms = px.VerifDescribe(descSubject, et, at) }); f != nil {
+			return "fault", nil, "FAIL desc-panic (structured) " + firstLine(fmt.Sprint(f))
+		}
+		st, err := structuredItems(vms)
+		if err != nil {
+			return "unmodelled", nil, "FAIL enc-unmodelled a mismatch carries a type outside the term language: " + err.Error()
+		}
+		if why := agree(st, ds); why != "" {
+			return renderItems(st) + " ;; " + renderItems(ds), st, "FAIL desc-text-structure-differ " + why
+		}
+		if len(st) == 0 {
+			return "empty", st, ""
+		}
+		return renderItems(st) + " ;; " + renderItems(ds), st, ""
 	}
 	out, ds, fail := describe(e.C, a.C)
 	res := func(pred string) core.Result {
@@ -477,6 +596,13 @@ func execDescs(c px.Context, op string, args []sx.Sexp) core.Result {
 		}
 		if !validPos(e.Ty, d.path[1:]) {
 			return res("FAIL desc-bad-path-" + d.kind + " the path of a mismatch is no position of the expected type: " + d.String())
+		}
+		// C19_typeMismatch_real_partial / C19_patternMismatch_real_partial: nothing merged, plain actual type => the reported
+		// expected type does not accept the reported actual type
+		if (d.kind == "tm" || d.kind == "pm") && d.expT != nil && noMergeT(e.Ty) && plainT(a.Ty) {
+			if ok, f := lat.SafeAsg(d.expT, d.actT); f == nil && ok {
+				return res("FAIL desc-unreal-" + d.kind + " the reported expected type accepts the reported actual type: " + d.String())
+			}
 		}
 		if why := unreal(env, e.Ty, a.Ty, d); why != "" {
 			return res("FAIL desc-unreal-" + d.kind + " " + why + ": " + d.String())
@@ -683,6 +809,47 @@ func validPos(e lat.Ty, path []pelem) bool {
 
 func hasMergeKinds(t lat.Ty) bool {
 	return lat.Contains(t, func(u lat.Ty) bool { return u.K == "var" || u.K == "data" || u.K == "rdata" })
+}
+
+// noMergeT / plainT: the Go twins of `noMerge` / `plain` (lean/Pcore/Proofs/DescribeLeaf.lean, DescribeTm.lean)
+func noMergeT(t lat.Ty) bool {
+	switch t.K {
+	case "var", "data", "rdata":
+		return false
+	case "arr", "hash", "tup", "opt":
+		for _, k := range t.Ts {
+			if !noMergeT(k) {
+				return false
+			}
+		}
+	case "struct":
+		for _, m := range t.Ms {
+			if !noMergeT(m.T) {
+				return false
+			}
+		}
+	}
+	return true
+}
+
+func plainT(t lat.Ty) bool {
+	switch t.K {
+	case "unit", "nu", "opt", "var", "data", "rdata":
+		return false
+	case "arr", "hash", "tup":
+		for _, k := range t.Ts {
+			if !plainT(k) {
+				return false
+			}
+		}
+	case "struct":
+		for _, m := range t.Ms {
+			if m.Opt || !plainT(m.T) {
+				return false
+			}
+		}
+	}
+	return true
 }
 
 func sizeOfT(t lat.Ty) (int64, int64, bool) {
